@@ -363,6 +363,14 @@ def r20(ctx: Ctx) -> RuleReport:
                     isinstance(n.value.elts[0], ast.Call) and isinstance(n.value.elts[0].func, ast.Attribute) and \
                     n.value.elts[0].func.attr == 'join' and len(n.value.elts[0].args) == 1 and \
                     norm(n.value.elts[0].args[0]) == tgt.id and (_min_ws_len(ctx, fi, n.value.elts[0].func.value, 0, n) or 0) >= 1
+                # the same regrouping applied to a slice:  parts[a:b] = [ws.join(parts[a:b])]  (or parts[:] = ...)
+                if not regroup and isinstance(tgt, ast.Subscript) and isinstance(tgt.slice, ast.Slice) and isinstance(n.value, ast.List) \
+                        and len(n.value.elts) == 1 and isinstance(n.value.elts[0], ast.Call) and isinstance(n.value.elts[0].func, ast.Attribute) \
+                        and n.value.elts[0].func.attr == 'join' and len(n.value.elts[0].args) == 1:
+                    joined = n.value.elts[0].args[0]
+                    same = norm(joined) == norm(ast.Subscript(value=tgt.value, slice=tgt.slice, ctx=ast.Load())) or \
+                        (norm(joined) == norm(tgt.value) and tgt.slice.lower is None and tgt.slice.upper is None)
+                    regroup = same and (_min_ws_len(ctx, fi, n.value.elts[0].func.value, 0, n) or 0) >= 1
                 if regroup:
                     rep.ok(key, fi.loc(n), 'projection-preserving regrouping: parts = [<whitespace>.join(parts)]')
                 else:
@@ -839,6 +847,12 @@ def r56(ctx: Ctx) -> RuleReport:
             'ok' if good else ('violation' if lits and all(isinstance(x, str) for x in lits) else 'undecided'), f'{lits}')
     # the joined items: comprehension over the argument, or a list filled by one append in a loop over the argument
     items = raw.args[0]
+    wrapped = items if not isinstance(items, ast.Name) else single_def(ctx, fi, items)
+    if isinstance(wrapped, ast.Call) and norm(wrapped.func) in ('dict.fromkeys', 'set', 'frozenset', 'sorted', 'OrderedDict.fromkeys') and wrapped.args:
+        rep.violation('penman._format:format_triples: every triple of the argument is written, in order', fi.loc(rets[0]),
+                      f'the conjuncts go through `{norm(wrapped.func)}(...)` before they are joined: a triple that occurs twice in the list is written once '
+                      f'(or the order changes), so parsing the text back gives a different list')
+        return rep
     it_src = elt = names = None
     filtered = False
     if isinstance(items, ast.Name):
@@ -865,6 +879,18 @@ def r56(ctx: Ctx) -> RuleReport:
         return rep
     rep.add('penman._format:format_triples: every triple of the argument is written, in order', fi.loc(),
             'ok' if it_src == fi.positional[0] and not filtered else ('violation' if filtered else 'undecided'), it_src)
+    # the text of one triple may be produced by a local helper: helper(triple) -> template over the unpacked triple
+    if isinstance(elt, ast.Call) and isinstance(elt.func, ast.Name) and len(elt.args) == 1 and not names:
+        hs = [t.func for t in ctx.cg.resolve_call(elt, fi) if t.kind == 'func' and t.func.module.name == fi.module.name]
+        if len(hs) == 1:
+            h = hs[0]
+            hp = h.positional[0] if h.positional else None
+            hr = [n for n in walk_local(h.node) if isinstance(n, ast.Return) and n.value is not None]
+            unp3 = next((n for n in walk_local(h.node) if isinstance(n, ast.Assign) and isinstance(n.targets[0], ast.Tuple)
+                         and len(n.targets[0].elts) == 3 and norm(n.value) == hp), None)
+            if len(hr) == 1 and unp3 is not None:
+                elt = hr[0].value if not isinstance(hr[0].value, ast.Name) else single_def(ctx, h, hr[0].value)
+                names = [norm(x) for x in unp3.targets[0].elts]
     tpl = _template(elt)
     want = None
     if names and len(names) == 3:
